@@ -63,7 +63,7 @@ impl Default for GenCfg {
             fam_typename_only: true,
             fam_mutual_rec: true,
             fam_double_variant: true,
-            fam_double_variant_sole_spread: false,
+            fam_double_variant_sole_spread: true,
             allow_id_variable: true,
             typename_on_objects_percent: 12,
             deprecation_percent: 0,
